@@ -147,6 +147,12 @@ func c11Run(rc *simrt.RunCtx) {
 		}
 		// next event of the history
 		ev := events[rc.Pick(len(events), "wl.event")]
+		if ev == "server-close" && bothPairedAtRound == round && rc.Pick(4, "wl.keep-server-close") != 0 {
+			// a server-side close of the pairing connection runs into the
+			// recorded finding (see known_findings.json) and ends the run;
+			// keep it, but let most histories go on
+			ev = "client-close"
+		}
 		delay := time.Duration(rc.Pick(4000, "wl.event-delay")) * time.Millisecond
 		time.Sleep(delay)
 		history = append(history, ev)
